@@ -6,6 +6,14 @@ from .. import common as C
 from ..translate_header import gen_header
 
 PROP = "C12"
+# ofxtools.config resolves (and creates) its user directories when `ofxtools` is first imported: keep them inside build/ (set before any import of
+# ofxtools, i.e. at import of this module; the front-door streams below go through ofxtools.Client and ofxtools.scripts.ofxget)
+import atexit, shutil
+_SCRATCH = os.path.join(C.BUILD, "scratch", "header-%d" % os.getpid())
+os.makedirs(_SCRATCH, exist_ok=True)
+for _k in ("HOME", "XDG_CONFIG_HOME", "XDG_DATA_HOME", "XDG_CACHE_HOME"):
+    os.environ[_k] = _SCRATCH
+atexit.register(shutil.rmtree, _SCRATCH, ignore_errors=True)
 COQ_EXTRA = ["theories/Model/HeaderCases.vo", "theories/Gen/HeaderGen.vo"]
 PARTIAL = [
     "int(str) is modelled for texts of at most 4300 digits (CPython's int-string limit raises ValueError beyond; same outcome: refused)",
@@ -302,7 +310,7 @@ def run(rep, tier, rng):
 
     # ---------- A. generation and round trip, every supported version and every three-digit v1 version ----------
     versions1 = sorted(set(SPEC_V1_VERSIONS) | set(range(100, 200)))
-    n_uid = 6 if thorough else 2
+    n_uid = 6 if thorough else 1
     for v in versions1 + SPEC_V2_VERSIONS:
         for sec in SPEC_SECURITY + [None]:
             for k_uid in range(n_uid + 1):
@@ -430,6 +438,15 @@ def run(rep, tier, rng):
         if out[0] != "reject":
             fail("ctor:%s:%s" % (label, "accepted" if out[0] == "ok" else "wrong-exception"), "%s%r -> %r" % ("OFXHeaderV1" if case[0] == "ctor1" else "OFXHeaderV2", tuple(x for x in case[1:]), out[:2]), case)
 
+    import logging, time as _time
+    _t0 = _time.time()
+    logging.disable(logging.CRITICAL)                # ofxget logs every refused response
+    try:
+        front_doors(rep, H, rng, thorough, fails)
+    finally:
+        logging.disable(logging.NOTSET)
+    rep.extra["front_door_seconds"] = round(_time.time() - _t0, 1)
+
     # ---------- D. constructors called directly, valid and invalid arguments mixed (model vs implementation) ----------
     def pick(valid, junk):
         r = rng.random()
@@ -459,8 +476,156 @@ def run(rep, tier, rng):
     rep.rule = ("structured stream: make_header for every version 100-199 and the seven 2xx versions x security levels x UIDs over [A-Za-z0-9_-]{1,36}, its str parsed back by "
                 "cls.parse and parse_header; every single-field corruption / omission / transposition of valid v1 and v2 headers through both parsers; refused version numbers; "
                 "constructors with mixed valid/invalid arguments. malformed stream: separator/blank layouts, character-level mutations incl. non-ASCII digits and letters, "
-                "XML declarations, int() texts; token-level enumeration in the deep setting. non-trivial = implementation returned a value; distinct by (entry point, arguments)")
+                "XML declarations, int() texts; token-level enumeration in the deep setting. front doors (implementation only): OFXClient request_profile / serialize / download "
+                "(dryrun) for every client version x per-call version, ofxget extract_signoninfos / extract_acctinfos / _read_scan_response on every refusal class. non-trivial = implementation returned a value; distinct by (entry point, arguments)")
     correspond(rep, H, cases, "header", PROP)
+
+
+SONRS = ("<SIGNONMSGSRSV1><SONRS><STATUS><CODE>0</CODE><SEVERITY>INFO</SEVERITY></STATUS><DTSERVER>20240101000000.000[+0:UTC]</DTSERVER>"
+         "<LANGUAGE>ENG</LANGUAGE></SONRS></SIGNONMSGSRSV1>")
+PROFRS_BODY = ("<OFX>" + SONRS + "<PROFMSGSRSV1><PROFTRNRS><TRNUID>1</TRNUID><STATUS><CODE>0</CODE><SEVERITY>INFO</SEVERITY></STATUS><PROFRS>"
+               "<MSGSETLIST><PROFMSGSET><PROFMSGSETV1><MSGSETCORE><VER>1</VER><URL>https://ofx.example.invalid/</URL><OFXSEC>NONE</OFXSEC>"
+               "<TRANSPSEC>Y</TRANSPSEC><SIGNONREALM>REALM</SIGNONREALM><LANGUAGE>ENG</LANGUAGE><SYNCMODE>LITE</SYNCMODE><RESPFILEER>Y</RESPFILEER>"
+               "</MSGSETCORE></PROFMSGSETV1></PROFMSGSET></MSGSETLIST><SIGNONINFOLIST><SIGNONINFO><SIGNONREALM>REALM</SIGNONREALM><MIN>4</MIN><MAX>32</MAX>"
+               "<CHARTYPE>ALPHAORNUMERIC</CHARTYPE><CASESEN>Y</CASESEN><SPECIAL>N</SPECIAL><SPACES>N</SPACES><PINCH>N</PINCH><CHGPINFIRST>N</CHGPINFIRST>"
+               "</SIGNONINFO></SIGNONINFOLIST><DTPROFUP>20240101000000.000[+0:UTC]</DTPROFUP><FINAME>Example FI</FINAME><ADDR1>1 Main St</ADDR1>"
+               "<CITY>Springfield</CITY><STATE>IL</STATE><POSTALCODE>62701</POSTALCODE><COUNTRY>USA</COUNTRY></PROFRS></PROFTRNRS></PROFMSGSRSV1></OFX>")
+ACCTINFORS_BODY = ("<OFX>" + SONRS + "<SIGNUPMSGSRSV1><ACCTINFOTRNRS><TRNUID>1</TRNUID><STATUS><CODE>0</CODE><SEVERITY>INFO</SEVERITY></STATUS><ACCTINFORS>"
+                   "<DTACCTUP>20240101000000.000[+0:UTC]</DTACCTUP><ACCTINFO><BANKACCTINFO><BANKACCTFROM><BANKID>111000614</BANKID><ACCTID>123456</ACCTID>"
+                   "<ACCTTYPE>CHECKING</ACCTTYPE></BANKACCTFROM><SUPTXDL>Y</SUPTXDL><XFERSRC>N</XFERSRC><XFERDEST>N</XFERDEST><SVCSTATUS>ACTIVE</SVCSTATUS>"
+                   "</BANKACCTINFO></ACCTINFO></ACCTINFORS></ACCTINFOTRNRS></SIGNUPMSGSRSV1></OFX>")
+
+
+def front_doors(rep, H, rng, thorough, fails):
+    """the property through the public entry points that lead to header.py (implementation only: the client and ofxget are not modelled here):
+    (1) what OFXClient puts on the wire for a per-call version is the header make_header gives for THAT version, of the right kind, and parses back;
+    (2) ofxget's response readers refuse every out-of-domain / malformed header (valid PROFRS / ACCTINFORS body behind it) with the header error."""
+    import warnings, concurrent.futures
+    import ofxtools.Client as CL
+    import ofxtools.Parser as P
+    import ofxtools.scripts.ofxget as G
+
+    def fail(key, what, replay):
+        fails.append(C.Failure(key, what, replay))
+
+    # ---- (1) OFXClient: client version x per-call override version ----
+    supported = SPEC_V1_VERSIONS + SPEC_V2_VERSIONS
+    n = 0
+    for dv in supported:
+        client = CL.OFXClient("https://ofx.example.invalid/", userid="porkypig", org="FIORG", fid="FID", version=dv)
+        with client.request_profile(gen_newfileuid=False, dryrun=True) as f:
+            tree = P.OFXTree()
+            tree.parse(f)
+            ofx = tree.convert()
+        for v in [None] + supported:
+            eff = v if v is not None else dv
+            old, new = rng.choice([None, "old_uid-%d" % eff]), rng.choice([None, rand_uid(rng), "N" * 36])
+            doors = [("request_profile", lambda: client.request_profile(version=v, gen_newfileuid=False, dryrun=True).read(), None, None),
+                     ("serialize", lambda: client.serialize(ofx, version=v, oldfileuid=old, newfileuid=new), old, new),
+                     ("download", lambda: client.download(ofx, version=v, oldfileuid=old, newfileuid=new, dryrun=True).read(), old, new)]
+            for door, fn, o_, n_ in doors:
+                n += 1
+                replay = {"front_door": "client", "door": door, "client_version": dv, "call_version": v, "old": o_, "new": n_}
+                out = call(H, fn)
+                if out[0] != "ok":
+                    fail("client:%s:raises" % door, "OFXClient(version=%s).%s(version=%s) raised %s" % (dv, door, v, out[1]), replay)
+                    continue
+                wire = out[1]
+                ref = call(H, H.make_header, eff, oldfileuid=o_, newfileuid=n_)
+                back = call(H, lambda b: H.parse_header(io.BytesIO(b)), wire)
+                want_kind = "v1" if eff < 200 else "v2"
+                flat, xmlk = wire.lstrip().startswith(b"OFXHEADER:"), wire.lstrip().startswith(b"<?xml")
+                if (want_kind == "v1" and not flat) or (want_kind == "v2" and not xmlk):
+                    fail("client:%s:wrong-kind" % door, "OFXClient(version=%s).%s(version=%s) wrote %r..., version %s calls for %s" % (dv, door, v, wire[:40], eff, "flat text" if want_kind == "v1" else "XML declarations"), replay)
+                elif back[0] != "ok" or ref[0] != "ok" or fields_of(H, back[1][0]) != fields_of(H, ref[1]):
+                    fail("client:%s:header-differs" % door, "OFXClient(version=%s).%s(version=%s): header on the wire %r, make_header(%s) %r" % (
+                        dv, door, v, fields_of(H, back[1][0]) if back[0] == "ok" else back[:2], eff, fields_of(H, ref[1]) if ref[0] == "ok" else ref[:2]), replay)
+                rep.count(("client", door, dv, v, o_, n_), nontrivial=True, kind="client:%s" % door)
+
+    # ---- (2) ofxget's readers: every corruption of the property, behind it a body the reader would accept ----
+    def scan(b):
+        fut = concurrent.futures.Future()
+        fut.set_result(io.BytesIO(b))
+        return G._read_scan_response(fut, read_signoninfo=True)[0]
+    readers = [("extract_signoninfos", lambda b: list(G.extract_signoninfos(io.BytesIO(b))), PROFRS_BODY),
+               ("extract_acctinfos", lambda b: list(G.extract_acctinfos(io.BytesIO(b))), ACCTINFORS_BODY),
+               ("_read_scan_response", scan, PROFRS_BODY)]
+    with warnings.catch_warnings():
+        warnings.simplefilter("ignore")
+        for kind in ("v1", "v2"):
+            base = (valid_v1_fields(103, "NONE", "B" * 36, "B" * 36, "USASCII", "NONE") if kind == "v1" else valid_v2_fields(203, "NONE", "B" * 36, "B" * 36))
+            render = render_v1 if kind == "v1" else render_v2
+            usable = []
+            for name, fn, body in readers:                       # sanity: the reader accepts the valid file
+                ok = call(H, fn, (render(base) + body).encode("ascii"))
+                if ok[0] == "ok" and ok[1] not in (False, []):
+                    usable.append((name, fn, body))
+                else:
+                    fail("ofxget:%s:%s:valid-response-refused" % (name, kind), "ofxget.%s does not read a valid %s response: %r" % (name, kind, ok[:2]),
+                         {"front_door": "ofxget", "door": name, "kind": kind, "label": "valid", "fields": base})
+            cors = corruptions(kind, base, rng)
+            if not thorough:                                    # every refusal class, one representative each
+                seen, keep = set(), []
+                for label, f in cors:
+                    cl = "transposed" if label.startswith("transposed") else label
+                    if cl not in seen or label.startswith("uid"):
+                        seen.add(cl); keep.append((label, f))
+                cors = keep
+            for label, f in cors:
+                data = (render(f) + "%s").encode("ascii")
+                for name, fn, body in usable:
+                    b = data.replace(b"%s", body.encode("ascii"))
+                    out = call(H, fn, b)
+                    refused = (out[0] == "reject") if name != "_read_scan_response" else (out == ("ok", False))
+                    rep.count(("ofxget", name, kind, label, repr(f)), nontrivial=False, kind="ofxget:%s:%s" % (name, "refused" if refused else "NOT-refused"))
+                    if not refused:
+                        lab = "transposed" if label.startswith("transposed") else label
+                        fail("ofxget:%s:%s:%s:%s" % (name, kind, lab, "accepted" if out[0] == "ok" else "wrong-exception"),
+                             "ofxget.%s on a %s response whose header has %s -> %r (must be refused with the header error)" % (name, kind, label, out[:2] if out[0] != "ok" else ("ok", str(out[1])[:60])),
+                             {"front_door": "ofxget", "door": name, "kind": kind, "label": label, "fields": f})
+    import ofxtools.Types as T
+    if T.String.strict is not True:
+        fail("ofxget:String.strict-left-off", "Types.String.strict is %r after the ofxget readers ran" % (T.String.strict,), {"front_door": "ofxget", "door": "state"})
+    rep.extra["front_door_client_calls"] = n
+
+
+def replay_front_door(H, r):
+    """re-run one front-door failure; -> True when it still fails."""
+    import warnings, concurrent.futures
+    import ofxtools.Client as CL
+    import ofxtools.Parser as P
+    import ofxtools.scripts.ofxget as G
+    if r["front_door"] == "client":
+        client = CL.OFXClient("https://ofx.example.invalid/", userid="porkypig", org="FIORG", fid="FID", version=r["client_version"])
+        with client.request_profile(gen_newfileuid=False, dryrun=True) as f:
+            tree = P.OFXTree(); tree.parse(f); ofx = tree.convert()
+        v = r["call_version"]
+        eff = v if v is not None else r["client_version"]
+        if r["door"] == "request_profile":
+            wire = client.request_profile(version=v, gen_newfileuid=False, dryrun=True).read()
+        elif r["door"] == "serialize":
+            wire = client.serialize(ofx, version=v, oldfileuid=r["old"], newfileuid=r["new"])
+        else:
+            wire = client.download(ofx, version=v, oldfileuid=r["old"], newfileuid=r["new"], dryrun=True).read()
+        back = call(H, lambda b: H.parse_header(io.BytesIO(b)), wire)
+        ref = H.make_header(eff, oldfileuid=r["old"], newfileuid=r["new"])
+        print("wire %r... -> %r ; make_header(%s) -> %r" % (wire[:50], fields_of(H, back[1][0]) if back[0] == "ok" else back[:2], eff, fields_of(H, ref)))
+        return back[0] != "ok" or fields_of(H, back[1][0]) != fields_of(H, ref)
+    if r["door"] == "state":
+        return False
+    kind, f = r["kind"], [tuple(x) for x in r["fields"]]
+    body = ACCTINFORS_BODY if r["door"] == "extract_acctinfos" else PROFRS_BODY
+    b = ((render_v1 if kind == "v1" else render_v2)(f) + body).encode("ascii")
+    with warnings.catch_warnings():
+        warnings.simplefilter("ignore")
+        if r["door"] == "_read_scan_response":
+            fut = concurrent.futures.Future(); fut.set_result(io.BytesIO(b))
+            out = call(H, lambda: G._read_scan_response(fut, read_signoninfo=True)[0])
+            print("ofxget._read_scan_response -> %r" % (out,))
+            return out != ("ok", False) if r["label"] != "valid" else out != ("ok", True)
+        out = call(H, lambda: list(getattr(G, r["door"])(io.BytesIO(b))))
+        print("ofxget.%s -> %r" % (r["door"], out[:2] if out[0] != "ok" else ("ok", len(out[1]))))
+        return out[0] != "reject" if r["label"] != "valid" else out[0] != "ok"
 
 
 def pinned_ok():
@@ -588,6 +753,11 @@ def deep_token_strings(rng, n):
 
 def replay(obj):
     H = hmod()
+    if obj["replay"].get("front_door"):
+        bad = replay_front_door(H, obj["replay"])
+        if bad:
+            print("VIOLATION property=%s replay=(this file)" % obj.get("property", PROP))
+        return 1 if bad else 0
     case = unjson(obj["replay"]["case"])
     expect = unjson(obj["replay"].get("expect", "reject"))
     out = run_impl(H, case)
